@@ -45,6 +45,7 @@ fn floors(t: Tier) -> Vec<(String, u64)> {
         ("attribute_type.accepted".into(), 39),
         ("attribute_type.rejected".into(), 65497),
         ("named.checked".into(), 49),
+        ("entry_points.compared".into(), 3 * 3 * 65536 - 10),
     ]
 }
 
@@ -112,6 +113,45 @@ fn check_code16(ctx: &mut Ctx, field: &str, attr: u16, x: u16, table: &[(u16, &s
         (Out::Ok(a), false) => ctx.violate(format!("C16:{}:unassigned-accepted", field), format!("unassigned code {} was accepted as {:?}", x, a), w_input(&msg, Some(SOpts::STRICT))),
         (Out::Err(e), true) => ctx.violate(format!("C16:{}:assigned-rejected", field), format!("assigned code {} was rejected: {}", x, errs_str(e)), w_input(&msg, Some(SOpts::STRICT))),
         (other, _) => ctx.violate(format!("C16:{}:{}", field, other.class()), format!("code {}: {}", x, out_str(other)), w_input(&msg, Some(SOpts::STRICT))),
+    }
+    // the same code through every other entry point must get the same verdict and value:
+    // bare AVP list, public per-type decoder, and reveal of a hidden AVP carrying it
+    let rec = wire::raw_record(attr, false, 0, &payload, true);
+    let mut verdicts: Vec<(&str, Option<SAvp>)> = Vec::new();
+    if let Out::Ok(l) = exec::decode_avps(&rec, Rk::ContractVec).out {
+        verdicts.push(("try_read_greedy", l.into_iter().next().and_then(|r| r.ok())));
+    }
+    if let Some(run) = exec::decode_type(attr, &payload, Rk::Slice) {
+        if !run.out.abnormal() {
+            verdicts.push(("per-type decoder", match run.out { Out::Ok(a) => Some(a), _ => None }));
+        }
+    }
+    {
+        let secret = b"c16";
+        let rv = [1u8, 2, 3, 4];
+        let plain = crate::spec::hide::plaintext(&payload, &[], &[0u8; 16]);
+        let value = crate::spec::hide::encrypt(attr, &plain, secret, &rv);
+        match exec::reveal(exec::hidden_exact(attr, &value), secret, rv) {
+            Out::Ok(a) => verdicts.push(("reveal", Some(a))),
+            Out::Err(_) => verdicts.push(("reveal", None)),
+            _ => {}
+        }
+    }
+    let base = match &out {
+        Out::Ok(a) => Some(a.clone()),
+        _ => None,
+    };
+    if !out.abnormal() {
+        for (how, v) in verdicts {
+            ctx.rep.bucket("entry_points.compared");
+            if v != base {
+                ctx.violate(
+                    format!("C16:{}:entry-point-disagrees:{}", field, how.replace(' ', "-")),
+                    format!("code {} inside a control message gives {:?} but through {} gives {:?}", x, base, how, v),
+                    J::obj(vec![("field", J::s(field)), ("code", J::U(x as u64)), ("record_hex", J::hex(&rec))]),
+                );
+            }
+        }
     }
 }
 
